@@ -3,6 +3,7 @@ package rules
 import (
 	"fmt"
 	"go/token"
+	"go/types"
 	"strings"
 
 	"golang.org/x/tools/go/ssa"
@@ -24,6 +25,8 @@ func c15(c *eng.Ctx, r *eng.Report) {
 		"R15.5 SignInfo.VerifySign consults no process-local state (its verdict depends only on key, hash and signature). " +
 		"R15.7 before a share has been verified, the only things about the message that decide whether it will be are the reviewed ones (it is a verify message, the sender's key is known, its data hash is this block's): no other branch on message content — in particular none on state keyed by the unauthenticated signer id — stands between a share and its verification; " +
 		"R15.8 the key a member's shares are verified under is bound once: the stored share public key is written only on the not-yet-stored edge (first announcement wins; an announcement is only self-signed, so a later one naming the same member proves nothing), and only AddMemberSignPk writes it. " +
+		"R15.10 a panic raised while handling one message ends that message, not the party: the deferred recover() of baseParty.Update neither sends on the party's Err channel nor calls anything that does (ID.Serialize panics on an over-long signer id, which the wire decoder lets through); " +
+		"R15.11 the share sets recover as soon as the threshold is reached: the comparison of the number of collected shares with the threshold in both generators is `count >= threshold` (not `>`): with exactly threshold valid shares the block must finalise; " +
 		"R15.9 garbage from one member cannot end the round: round1.Update returns a non-nil *Error — which terminates the signing party for everyone — only on conditions that do not depend on the content of the message (it is not a verify message; the block is already on chain); a share that fails any check is dropped with `return nil`. " +
 		"Not decided: recovery correctness (C13), network-level behaviour."
 	r.Assume = []string{"groupsig.VerifySig is sound (C14)", "SignInfo.VerifySign(pk) = VerifySig(pk, dataHash, signature)"}
@@ -36,6 +39,8 @@ func c15(c *eng.Ctx, r *eng.Report) {
 	c15PreVerifyBranches(c, r)
 	c15KeyBinding(c, r)
 	c15NoFatalOnContent(c, r)
+	c15RecoverDoesNotKill(c, r)
+	c15ThresholdCompare(c, r)
 }
 
 // c15Parking: a verify message that arrives before its party exists is parked
@@ -529,4 +534,87 @@ func c15NoFatalOnContent(c *eng.Ctx, r *eng.Report) {
 		}
 	}
 	r.Check(bad == "" && nerr >= 1, rule, "round1.Update:no-fatal-on-content", c.Pos(fn.Pos()), "no error return depends on what the message carries", "round1.Update returns a fatal *Error at "+bad+", a condition on what the sender put into the message: the error ends the signing party, so one faulty member sending a malformed share stops a block for which enough valid shares would have arrived")
+}
+
+// c15RecoverDoesNotKill: see R15.10.
+func c15RecoverDoesNotKill(c *eng.Ctx, r *eng.Report) {
+	const rule = "R15.10"
+	r.Min(rule, 1)
+	fn := c.Func("consensus/logical", "(*baseParty).Update")
+	if !r.Anchor(fn != nil, rule, "(*baseParty).Update") {
+		return
+	}
+	n, bad := 0, ""
+	for _, anon := range fn.AnonFuncs {
+		recovers := false
+		for _, s := range eng.Sites(anon) {
+			if s.Name() == "builtin:recover" {
+				recovers = true
+			}
+		}
+		if !recovers {
+			continue
+		}
+		n++
+		// the handler's cone inside package logical
+		cone := c.ConeOf([]*ssa.Function{anon}, func(f *ssa.Function) bool { return strings.HasSuffix(eng.FuncPkgPath(f), "/consensus/logical") })
+		for _, f := range cone.Sorted() {
+			if f.Blocks == nil || !strings.HasSuffix(eng.FuncPkgPath(f), "/consensus/logical") {
+				continue
+			}
+			for _, b := range f.Blocks {
+				for _, in := range b.Instrs {
+					switch x := in.(type) {
+					case *ssa.Send:
+						if strings.HasSuffix(eng.Desc(x.Chan), ".Err") {
+							bad = eng.FuncName(f) + " sends on the party's Err channel (" + c.Pos(x.Pos()) + ")"
+						}
+					case *ssa.Select:
+						for _, st := range x.States {
+							if st.Dir == types.SendOnly && strings.HasSuffix(eng.Desc(st.Chan), ".Err") {
+								bad = eng.FuncName(f) + " sends on the party's Err channel in a select (" + c.Pos(x.Pos()) + ")"
+							}
+						}
+					}
+				}
+			}
+		}
+	}
+	r.Check(bad == "" && n >= 1, rule, "baseParty.Update:recover-is-local", c.Pos(fn.Pos()), "the recover handler only logs", "the deferred recover() of baseParty.Update ends the party: "+bad+" — one verify message with a 33-byte signer id makes ID.Serialize panic while round1.Update formats its log line, the party is closed and marked finished, the honest shares that follow are dropped and the block is never finalised")
+}
+
+// c15ThresholdCompare: see R15.11.
+func c15ThresholdCompare(c *eng.Ctx, r *eng.Report) {
+	const rule = "R15.11"
+	r.Min(rule, 1)
+	n := 0
+	for _, spec := range [][2]string{{"consensus/logical", "(*groupSignGenerator).addWitnessForce"}, {"consensus/model", "(*GroupSignGenerator).AddWitnessForce"}, {"consensus/model", "(*GroupSignGenerator).addWitnessForce"}} {
+		fn := c.Func(spec[0], spec[1])
+		if fn == nil {
+			continue
+		}
+		for _, b := range fn.Blocks {
+			for _, in := range b.Instrs {
+				bo, ok := in.(*ssa.BinOp)
+				if !ok {
+					continue
+				}
+				dx, dy := eng.Desc(bo.X), eng.Desc(bo.Y)
+				var op token.Token
+				switch {
+				case strings.HasPrefix(dx, "builtin:len(") && strings.HasSuffix(strings.ToLower(dy), "threshold"):
+					op = bo.Op
+				case strings.HasPrefix(dy, "builtin:len(") && strings.HasSuffix(strings.ToLower(dx), "threshold"):
+					op = eng.Flip(bo.Op)
+				default:
+					continue
+				}
+				n++
+				// count OP threshold: the recovering side must be count >= threshold
+				ok2 := op == token.GEQ || op == token.LSS
+				r.Check(ok2, rule, "threshold-compare:"+spec[1], c.Pos(bo.Pos()), "shares are combined once count >= threshold", fmt.Sprintf("%s compares the number of collected shares with the threshold as `count %s threshold`: recovery then needs threshold+1 shares — with exactly threshold valid shares (one faulty or silent member in a 3-member group) the block never finalises", spec[1], op))
+			}
+		}
+	}
+	r.Check(n >= 1, rule, "threshold-compare:sites", "", fmt.Sprintf("%d comparisons of the share count with the threshold", n), "no comparison of len(shares) with the threshold found in the share generators")
 }
